@@ -31,6 +31,16 @@ class _CommonVisitors(visitor.NodeVisitor):
     Contains the visitor methods that are equal between SQLAlchemy Core and ORM.
     """
 
+    def generic_visit(self, node: ast._Node) -> Any:
+        """
+        Reached for node types these visitors have no translation for (e.g.
+        geography literals outside of geo functions). Refuse them instead of
+        silently translating them to ``None``, i.e. SQL ``NULL``.
+
+        :meta private:
+        """
+        raise ex.TypeException(self.__class__.__name__, node.__class__.__name__)
+
     def visit_Null(self, node: ast.Null) -> Null:
         ":meta private:"
         return null()
